@@ -12,3 +12,4 @@ import FuraxProofs.Props.C03
 #print axioms Furax.C03.moveaxis_transpose_inverse
 #print axioms Furax.C03.toeplitz_self_adjoint
 #print axioms Furax.C03.block_row_adjoint
+#print axioms Furax.C03.transpose_structOK
